@@ -246,6 +246,12 @@ class VhdlAssembler:
         self._known_templates: IdMap[ir.EntityTemplate, vhdl.Entity] = IdMap()
         self._stmt_assembler = _StmtAssembler()
 
+        # names of the entities of the generated library (lower case)
+        # all entities end up in one library, their names must differ
+        self._entity_names: set[str] = set()
+        # scopes of the entities that are currently converted
+        self._open_module_scopes: list[vhdl.ModuleScope] = []
+
         if additional_reserved_names is None:
             self._additional_reserved_names = None
         else:
@@ -286,6 +292,20 @@ class VhdlAssembler:
             module_scope = vhdl.ModuleScope(
                 additional_reserved_names=self._additional_reserved_names
             )
+
+            if not inp.info().extern:
+                # names of other entities cannot be used in this design unit,
+                # an enclosing entity keeps its name, instantiated entities
+                # with the same name are renamed
+                for entity_name in self._entity_names:
+                    module_scope.reserve_name(entity_name)
+
+                own_name = vhdl.VhdlScope.sanitize_name(inp.info().name).lower()
+
+                if own_name not in module_scope._used_names:
+                    self._entity_names.add(own_name)
+
+                self._open_module_scopes.append(module_scope)
             entity_scope = vhdl.EntityScope(module_scope)
             arch_scope = vhdl.ArchScope(entity_scope)
 
@@ -361,6 +381,11 @@ class VhdlAssembler:
 
             ret = vhdl.Entity(inp.info(), alias_scope, blocks)  # type: ignore
 
+            # the entity is named first (outermost scope) so that no local
+            # object can take its name, ports are looked up in the entity scope
+            module_scope.declare(ret)
+            ret._decl_scope = entity_scope
+
             arch = vhdl.Architecture(alias_scope, ret, blocks)
             entity_scope.declare(arch)
             ret._arch = arch
@@ -368,6 +393,15 @@ class VhdlAssembler:
             self._add_template(inp, ret)
 
             module_scope.complete_setup()
+
+            if not inp.info().extern:
+                assert self._open_module_scopes.pop() is module_scope
+
+                final_name = ret.declared_name().lower()
+                self._entity_names.add(final_name)
+
+                for open_scope in self._open_module_scopes:
+                    open_scope.reserve_name(final_name)
 
             return ret
 
